@@ -393,6 +393,16 @@ def base_specs(n, seed, tier):
                         constraints=[{"id": "nd", "kind": "ResourceNonDelay", "resource": "w0"}]))
     out.append(fam.base(5, [fam.fx("x", 1, optional=True), fam.fx("y", 2), fam.fx("z", 1, optional=True)],
                         constraints=[{"id": "tc", "kind": "TasksContiguous", "tasks": ["x", "y", "z"]}]))
+    # constraints of very different nature side by side (buffer operations contribute no assertion of their own):
+    # every declaration order of them must mean the same
+    for conc in (False, True):
+        out.append(fam.base(6, [fam.fx("fill", 2), fam.fx("drain", 2), fam.fx("x", 1, optional=True)], buffers=[
+            {"name": "tank", "concurrent": conc, "initial": 0, "lower": 0, "upper": 3}], constraints=[
+            {"id": "l", "name": "l", "kind": "TaskLoadBuffer", "task": "fill", "buffer": "tank", "quantity": 2},
+            {"id": "u", "name": "u", "kind": "TaskUnloadBuffer", "task": "drain", "buffer": "tank", "quantity": 2},
+            {"id": "s", "name": "s", "kind": "TaskStartAt", "task": "fill", "value": 1},
+            {"id": "e", "name": "e", "kind": "TaskEndBefore", "task": "drain", "value": 5, "mode": "lax"},
+            {"id": "p", "name": "p", "kind": "TaskPrecedence", "before": "x", "after": "drain", "offset": 0, "mode": "lax"}]))
     out += collision_specs()
     return out
 
